@@ -2,7 +2,7 @@
    Only statements; every proof is [exact] of a lemma of Tree/GenProofs.v. *)
 From Coq Require Import List Arith.
 Import ListNotations.
-From Onet Require Import Tree.Gen Tree.GenProofs Tree.GenBigProofs.
+From Onet Require Import Tree.Gen Tree.GenProofs Tree.GenBigProofs Corr.C12 Tree.CheckProofs.
 From Coq Require Import Permutation.
 
 (* The n-ary generator (and hence the binary and star generators) returns, in
@@ -94,3 +94,21 @@ Example c12_nary_example :
   gen_nary 7 2 (RIdx 3) = GTree [(3,0); (4,0); (5,0); (6,1); (0,1); (1,2); (2,2)].
 Proof. exact nary_example. Qed.
 Print Assumptions c12_nary_example.
+
+(* the property checker that is evaluated on the implementation's observations accepts the
+   model's own output of the n-ary generator, for every roster size, branching factor and root,
+   given pairwise different node ids: the checker demands nothing the proved shape does not
+   give, so an implementation that agrees with the model is never reported *)
+Theorem c12_checker_accepts_model : forall n N root ids,
+  1 <= N -> 1 <= n -> (root = RNil \/ exists k, root = RIdx k /\ k < n) ->
+  length ids = n -> nodupb ids = true ->
+  check (CNary n N root (gen_nary n N root) ids true true) = [].
+Proof. exact check_accepts_model_nary. Qed.
+Print Assumptions c12_checker_accepts_model.
+
+Theorem c12_checker_accepts_model_bad_root : forall n N k ids links ridx,
+  1 <= N -> 1 <= n -> n <= k ->
+  check (CNary n N (RIdx k) (gen_nary n N (RIdx k)) ids links ridx) = [] /\
+  check (CNary n N RForeign (gen_nary n N RForeign) ids links ridx) = [].
+Proof. exact check_accepts_model_bad_root. Qed.
+Print Assumptions c12_checker_accepts_model_bad_root.
